@@ -2624,7 +2624,7 @@ func (c *Ctx) bufFlush(rule string, pkgs []*packages.Package, clause string) (n,
 				}
 				key := c.enclosingFuncName(info, stack) + "/" + w.Name() + ".Flush"
 				flushPlain, flushDeferred := false, false
-				closePlain := token.NoPos
+				closePlain, flushDeferredPos, closeDeferredPos := token.NoPos, token.NoPos, token.NoPos
 				walkStack(body, func(q ast.Node, st []ast.Node) bool {
 					cl, ok := q.(*ast.CallExpr)
 					if !ok {
@@ -2643,12 +2643,13 @@ func (c *Ctx) bufFlush(rule string, pkgs []*packages.Package, clause string) (n,
 					if sel, ok := unparen(cl.Fun).(*ast.SelectorExpr); ok && identObj(info, sel.X) == w && h.Name() == "Flush" {
 						if deferred {
 							flushDeferred = true
+							flushDeferredPos = cl.Pos()
 						} else {
 							flushPlain = true
 						}
 						return true
 					}
-					if under == nil || deferred {
+					if under == nil {
 						return true
 					}
 					closes := false
@@ -2662,6 +2663,13 @@ func (c *Ctx) bufFlush(rule string, pkgs []*packages.Package, clause string) (n,
 							}
 						}
 					}
+					if closes && deferred {
+						// deferred calls run last-in-first-out: a close deferred AFTER the flush runs before it
+						if cl.Pos() > closeDeferredPos {
+							closeDeferredPos = cl.Pos()
+						}
+						return true
+					}
 					if closes && !closePlain.IsValid() {
 						closePlain = cl.Pos()
 					}
@@ -2674,6 +2682,9 @@ func (c *Ctx) bufFlush(rule string, pkgs []*packages.Package, clause string) (n,
 				case flushDeferred && !flushPlain && closePlain.IsValid():
 					nviol++
 					c.Violation(rule, key, closePlain, "Flush of the buffered writer "+w.Name()+" is only deferred while "+under.Name()+" is closed by an ordinary call before the function returns: the flush runs after the close, and the buffered output (all of it when it is smaller than the buffer) is lost").Clause = clause
+				case flushDeferred && !flushPlain && closeDeferredPos.IsValid() && closeDeferredPos > flushDeferredPos:
+					nviol++
+					c.Violation(rule, key, closeDeferredPos, "Flush of the buffered writer "+w.Name()+" is deferred BEFORE the close of "+under.Name()+" is deferred: deferred calls run in reverse order, so the file is closed first and the flush that follows fails silently (the buffered tail, or everything when it is smaller than the buffer, is lost)").Clause = clause
 				default:
 					c.OK(rule, key, as.Pos(), "the buffered writer is flushed before its file is closed")
 				}
